@@ -64,7 +64,7 @@ def cse(expressions, cse_concat=True, cse_in_brackets=False, verbose=False):
     # Keep only expressions
     # 1. with at least one axis
     # 2. where axes are not also used outside the expression
-    common_exprs = set()
+    common_exprs = []  # A list (not a set), such that the numbering and choice of subexpressions does not depend on the hash seed
     for str_expr in str_to_common_expr.keys():
         used_axis_ids = set()
         used_axis_names = set()
@@ -86,7 +86,7 @@ def cse(expressions, cse_concat=True, cse_in_brackets=False, verbose=False):
                         axes_used_only_in_this_subexpression = axes_used_only_in_this_subexpression and id(global_axis) in used_axis_ids
 
         if axes_used_only_in_this_subexpression:
-            common_exprs.add(str_expr)
+            common_exprs.append(str_expr)
 
     common_exprs = [str_to_common_expr[k] for k in common_exprs]  # list of common_expr(=list of exprlist)
 
@@ -229,17 +229,17 @@ def cse(expressions, cse_concat=True, cse_in_brackets=False, verbose=False):
             result = []
             i = 0
             while i < len(expr):
-                # Check if a subexpression starts at position i
+                # Check if a subexpression starts at position i. If several do (e.g. "a b" and "a b c"), use the longest one
                 exprlist_found = None
-                for idx, common_expr in enumerate(common_exprs):  # noqa: B007
+                for idx2, common_expr in enumerate(common_exprs):
                     for exprlist in common_expr:
                         for j in range(len(exprlist)):
                             if i + j >= len(expr) or id(exprlist[j]) != id(expr[i + j]):
                                 break
                         else:
-                            exprlist_found = exprlist
-                    if exprlist_found is not None:
-                        break
+                            if exprlist_found is None or len(exprlist) > len(exprlist_found):
+                                exprlist_found = exprlist
+                                idx = idx2
                 exprlist = exprlist_found
 
                 if exprlist is not None:
